@@ -59,10 +59,12 @@ def toy(mulgrids, which, convention=0, atmos=0):
                'f': (30, 10), 'g': (36, 0)}
         cols = [('a', 'b', 'd'), ('b', 'e', 'd'), ('b', 'c', 'e'), ('c', 'f', 'e'),
                 ('c', 'g', 'f')]
-    for nm in sorted(pts):
-        geo.add_node(m.node(nm.rjust(3), np.array(pts[nm], dtype=float)))
+    nname = {}
+    for i, nm in enumerate(sorted(pts)):
+        nname[nm] = geo.node_name_from_number(i + 1)      # width and style of the convention
+        geo.add_node(m.node(nname[nm], np.array(pts[nm], dtype=float)))
     for k, c in enumerate(cols):
-        nodes = [geo.node[n.rjust(3)] for n in c]
+        nodes = [geo.node[nname[n]] for n in c]
         name = geo.column_name_from_number(k + 1)
         geo.add_column(m.column(name, nodes))    # the constructor orients it counter-clockwise
     # connections between columns sharing an edge
